@@ -141,7 +141,12 @@ def main(argv=None):
     t0 = time.time()
     mod = importlib.import_module("jv.checks.%s" % prop.lower())
     known = [k for k in load_known() if k.get("property") == prop]
-    known_sigs = {k["signature"] for k in known if k.get("status") == "known"}
+    known_sigs = set()
+    for k in known:
+        if k.get("status") == "known":
+            known_sigs.update(k.get("signatures", []))
+            if "signature" in k:
+                known_sigs.add(k["signature"])
 
     workdir = tempfile.mkdtemp(prefix="jv_%s_" % prop, dir=os.environ.get("JV_WORK", None))
     try:
